@@ -18,17 +18,17 @@ func init() {
 		Level: "exploration",
 		Rule: "case = one key (0..12 characters from all Unicode planes, ASCII symbols, controls, DEL, C1, U+FFFD/U+FFFF, astral, escape-looking sequences such as \\n, \\u0041, lone " +
 			"surrogates as \\uXXXX text) stored as member k -> \"HIT\" of an object together with near-miss sibling keys (k+x, \\k, k\\, quoted k, k without/with doubled backslashes, " +
-			"k minus first/last character, case variants); queried as $['k'], $[\"k\"], $.k with every symbol backslash-escaped (non-empty keys without control characters), k with the root " +
+			"k minus first/last character, case variants); queried as $['k'], $[\"k\"], the same with every character written as a \\uXXXX escape (upper-case / lower-case / mixed hex, surrogate pairs), $.k with every symbol backslash-escaped (non-empty keys without control characters), k with the root " +
 			"omitted, $..k, $..['k'], $[?(@['k']=='HIT')], $['k','k'], nested $.o['k']; judged: exactly [\"HIT\"] (direct map lookup is the model) for every spelling; " +
 			"non-trivial = the key contains a non-alphanumeric character; distinct = distinct keys",
 		Assumptions: []string{"keys are valid UTF-8 (JSON object keys)", "bracket spelling uses JSON-style escaping: the quote, backslash, \\b\\f\\n\\r\\t and \\u00XX for other control characters"},
 		Plan: func(tier string, seed int64) *harness.Plan {
 			return &harness.Plan{
-				N:        size(tier, 80000, 2000000),
+				N:        size(tier, 200000, 3000000),
 				Setup:    func(c *harness.Ctx) { hooksOn() },
 				Run:      runC16,
 				Finish:   reportHooks,
-				Required: []string{"key:empty", "key:control", "key:astral", "key:backslash", "key:quote", "spelling:dot", "spelling:single", "spelling:double", "spelling:recursive-dot", "spelling:filter", "spelling:rootless"},
+				Required: []string{"key:empty", "key:control", "key:astral", "key:backslash", "key:quote", "spelling:dot", "spelling:single", "spelling:double", "spelling:recursive-dot", "spelling:filter", "spelling:rootless", "spelling:hex-upper", "spelling:hex-lower", "spelling:hex-mixed"},
 			}
 		},
 	})
@@ -101,6 +101,11 @@ func runC16(c *harness.Ctx, k int) {
 		{"nested", render(&spec.Path{Root: '$', Steps: []spec.Step{{Kind: spec.KName, Key: "o"}, nameStep(true)}}, r.Intn(2) == 0), nested, hit},
 		{"rootless-bracket", render(&spec.Path{Root: 0, Steps: []spec.Step{nameStep(true)}}, r.Intn(2) == 0), doc, hit},
 	}
+	// the same key with its characters written as \uXXXX escapes (upper-case, lower-case, mixed; surrogate pairs for astral characters)
+	for mode, nm := range []string{"hex-upper", "hex-lower", "hex-mixed"} {
+		qs = append(qs, q{nm, "$[" + spec.QuoteKeyHex(key, (k+mode)%2 == 0, mode) + "]", doc, hit})
+	}
+	qs = append(qs, q{"hex-recursive", "$..[" + spec.QuoteKeyHex(key, k%2 == 0, k%3) + "]", doc, hit})
 	// filter spelling: members of an array, one of which has k -> HIT
 	fdoc := []interface{}{map[string]interface{}{key: "HIT", "id": "yes"}}
 	for i, s := range gen.NearMisses(key) {
